@@ -56,6 +56,15 @@ def link : String :=
 def run : String :=
   "(block (call (. v2 apply) v0) (:= (v3) ((call (. runner Run) v0 (call (. v1 String))))) (call (. (. v0 events) RunDone) v3) (return v3))"
 
+def applyOptions : String :=
+  "(block (if _ (== v0 nil) (block (= ((. v1 always)) (false)) (= ((. v1 dryrun)) (false)) (return)) _) (= ((. v1 always)) ((. v0 Always))) (= ((. v1 dryrun)) ((. v0 DryRun))))"
+
+def applyNilAssigns : List String :=
+  ["always", "dryrun"]
+
+def applySetAssigns : List String :=
+  ["always", "dryrun"]
+
 def saveIndex : String :=
   String.join [
     "(block (:= (v1 v2) ((call (. os Create) (call (. filepath Join) (. v0 work) \"index.json\")))) (if _ (!= v2 nil) (block (return v2)) _) (defer (call (. v1 Close))) (call verifPoint \"saveIndex.created\" nil) (:= (v3) ((lit index (kv Flags (call make (array _ (* Flag)) 0 (call len (. v0 args)))) (kv Targets (call make (array _ TargetSummary) 0 (call len (. v0 targets))))))) (range _ v4 (. v0 flags) (block (= ((. v3 Flags)) ((call append (. v3 Flags) v4))))) (call (. sort Slice) (. v3 Flags) (func (block (return (< (. (index (. v3 Flags) v5) Name) (. (index (. v3 Flags) v6) Name)))))) (range _ v7 (. v0 targets) (block (= ((. v3 Targets)) ((call append (. v3 Targets) (lit TargetSummary (kv Label (call (. (. v7 target) Label))) (kv Summary (call DocSummary (. v7 target))))))))) (call (. sort Slice",
